@@ -341,3 +341,155 @@ func (m *ServerModel) checkedBy(st *HState, root *FuncInfo, fnKey, arg string) b
 	}
 	return false
 }
+
+// --- queries that follow an operation into helpers analysed in place -------------------
+
+// callsDeep returns the call sites of key that run as part of root: the ones written in root
+// itself (callsIn) and the ones inside helpers that the site analysis entered in place
+// (Site.Inl non-empty; their states include what root established before the helper call).
+func (m *ServerModel) callsDeep(root *FuncInfo, key string) []*Site {
+	out := m.callsIn(root, key)
+	type ck struct {
+		call  *ast.CallExpr
+		outer *ast.CallExpr
+	}
+	by := map[ck]*Site{}
+	var order []ck
+	for _, s := range m.DB.Deep[root] {
+		if s.Callee != key {
+			continue
+		}
+		k := ck{s.Call, s.Inl[0].Call}
+		if prev, ok := by[k]; ok {
+			cp := *prev
+			cp.St = hJoin(prev.St, s.St)
+			by[k] = &cp
+			continue
+		}
+		by[k] = s
+		order = append(order, k)
+	}
+	for _, k := range order {
+		out = append(out, by[k])
+	}
+	return out
+}
+
+// arg renders argument i of the site's call in the frame of the root function.
+func (s *Site) arg(i int) string {
+	if i >= len(s.Call.Args) {
+		return ""
+	}
+	return s.Res.str(s.Call.Args[i])
+}
+
+// recvStr renders the receiver of the site's call in the frame of the root function.
+func (s *Site) recvStr() string {
+	if sel, ok := unparen(s.Call.Fun).(*ast.SelectorExpr); ok {
+		return s.Res.str(sel.X)
+	}
+	return ""
+}
+
+// argExpr maps argument i back to an expression of the root function: a bare parameter of a
+// helper analysed in place is replaced by the expression the helper was called with.
+func (s *Site) argExpr(info *types.Info, i int) ast.Expr {
+	if i >= len(s.Call.Args) {
+		return nil
+	}
+	e := unparen(s.Call.Args[i])
+	for lvl := len(s.Inl) - 1; lvl >= 0; lvl-- {
+		id, ok := e.(*ast.Ident)
+		if !ok {
+			return e
+		}
+		obj := info.Uses[id]
+		fr := s.Inl[lvl]
+		idx, found := 0, false
+		for _, fld := range fr.Decl.Type.Params.List {
+			for _, nm := range fld.Names {
+				if info.Defs[nm] == obj && idx < len(fr.Call.Args) {
+					e = unparen(fr.Call.Args[idx])
+					found = true
+				}
+				idx++
+			}
+			if len(fld.Names) == 0 {
+				idx++
+			}
+		}
+		if !found {
+			return e
+		}
+	}
+	return e
+}
+
+// viaHelpers describes the helper chain of a deep site ("" for a direct one).
+func (s *Site) viaHelpers() string {
+	if len(s.Inl) == 0 {
+		return ""
+	}
+	var names []string
+	for _, f := range s.Inl {
+		names = append(names, f.Decl.Name.Name)
+	}
+	return " (via " + strings.Join(names, " → ") + ")"
+}
+
+// valueUses counts the references to a declared function that are not the callee of a call
+// (method values, function values stored or passed on): such a function can run from places
+// the static call sites do not show.
+func (m *ServerModel) valueUses(fi *FuncInfo) int {
+	n := 0
+	for _, p := range m.L.modulePkgs() {
+		for id, obj := range p.TypesInfo.Uses {
+			if obj != types.Object(fi.Obj) {
+				continue
+			}
+			var ref ast.Node = id
+			if sel, ok := m.L.parent(id).(*ast.SelectorExpr); ok && sel.Sel == id {
+				ref = sel
+			}
+			if call, ok := m.L.parent(ref).(*ast.CallExpr); ok && unparen(call.Fun) == ref.(ast.Expr) {
+				continue
+			}
+			n++
+		}
+	}
+	return n
+}
+
+// reachedOnlyFrom checks a who-may-call rule through private helpers: every static caller of
+// key must be one of the allowed functions or an unexported function that is never used as a
+// value and whose own callers satisfy the same condition.  It returns the offending callers.
+func (m *ServerModel) reachedOnlyFrom(key string, allowed map[string]bool) (bad []string, via []string) {
+	seen := map[string]bool{}
+	var visit func(k string, depth int)
+	visit = func(k string, depth int) {
+		for _, s := range m.DB.Calls[k] {
+			c := s.Root
+			if allowed[c.Key] || seen[c.Key] {
+				continue
+			}
+			seen[c.Key] = true
+			private := !c.Obj.Exported() && m.valueUses(c) == 0 && len(m.DB.Calls[c.Key]) > 0
+			if !private || depth >= 3 {
+				bad = append(bad, c.Key)
+				continue
+			}
+			via = append(via, c.Key)
+			visit(c.Key, depth+1)
+		}
+	}
+	visit(key, 0)
+	sort.Strings(bad)
+	sort.Strings(via)
+	return dedupe(bad), dedupe(via)
+}
+
+// exitsDeep: the exits of fi together with the exits of the helpers analysed in place from it
+// (a guard may sit in a private helper and answer from there).
+func (m *ServerModel) exitsDeep(fi *FuncInfo) []*ExitRec {
+	return append(append([]*ExitRec{}, m.DB.Exits[fi]...), m.DB.DeepExits[fi]...)
+}
